@@ -39,9 +39,37 @@ class B(FandangoParty):
 """
 for _k in ("pingpong", "group", "nest", "same"):
     PROTO_SPECS[_k] += PARTIES
+PARTIES3 = PARTIES + """
+
+class S(FandangoParty):
+    def __init__(self):
+        super().__init__(connection_mode=ConnectionMode.EXTERNAL)
+
+
+class X(FandangoParty):
+    def __init__(self):
+        super().__init__(connection_mode=ConnectionMode.EXTERNAL)
+"""
+# specs that are sliced to a subset of parties with the real slice_parties() before forecasting
+SLICED = {
+    "sliced": ("<start> ::= <A:S:hello> (<S:X:ok> | <S:X:err> | <A:S:cancel>) <A:S:bye>? <S:X:done>\n<hello> ::= 'h'\n<ok> ::= 'o'\n<err> ::= 'e'\n"
+               "<cancel> ::= 'c'\n<bye> ::= 'b'\n<done> ::= 'd'\n" + PARTIES3, {"A"}),
+    "sliced2": ("<start> ::= <A:S:hello> <mid>* <A:S:bye>\n<mid> ::= <S:X:log> | <X:S:ack> | <S:A:data> <A:S:ok>\n<hello> ::= 'h'\n<log> ::= 'l'\n<ack> ::= 'a'\n"
+                "<data> ::= 'd'\n<ok> ::= 'o'\n<bye> ::= 'b'\n" + PARTIES3, {"A"}),
+}
+for _k, (_text, _keep) in SLICED.items():
+    PROTO_SPECS[_k] = _text
 SPEC = os.environ.get("H_SPEC", "fore")
 DEPTH = int(os.environ.get("H_DEPTH", "3"))
 G = load(PROTO_SPECS[SPEC])
+G_REF = G  # the IR the reference is computed from
+KEEP = None
+if SPEC in SLICED:
+    from fandango.language.parse.slice_parties import slice_parties
+
+    KEEP = SLICED[SPEC][1]
+    G_REF = load(PROTO_SPECS[SPEC])  # untouched copy for the reference
+    slice_parties(G, set(KEEP), ignore_receivers=False)  # the real slicing, on the grammar the forecaster gets
 nodes_mod.MAX_REPETITIONS = 3
 
 
@@ -56,19 +84,33 @@ def letter(sender, recipient, sym):
     return LETTERS[key]
 
 
+REMOVED = object()
+
+
 def msg_re(node):
+    """regex of the message-level language; with KEEP set, messages in which no kept party takes part are
+    removed the way the documentation describes slicing: a removed alternative disappears, a removed element
+    of a sequence disappears, a repetition of something removed disappears, an emptied rule disappears"""
     if isinstance(node, NonTerminalNode):
         if node.sender is not None:
+            if KEEP is not None and node.recipient is not None and node.sender not in KEEP and node.recipient not in KEEP:
+                return REMOVED
             return z3.Re(z3.StringVal(letter(node.sender, node.recipient, node.symbol.name())))
-        return msg_re(G.rules[node.symbol])
+        return msg_re(G_REF.rules[node.symbol])
     if isinstance(node, TerminalNode):
         return z3.Re(z3.StringVal(""))
     if isinstance(node, Alternative):
-        rs = [msg_re(a) for a in node.alternatives]
+        rs = [r for r in (msg_re(a) for a in node.alternatives) if r is not REMOVED]
+        if not rs:
+            return REMOVED
         return rs[0] if len(rs) == 1 else z3.Union(*rs)
     if isinstance(node, Concatenation):
-        rs = [msg_re(a) for a in node.nodes]
+        rs = [r for r in (msg_re(a) for a in node.nodes) if r is not REMOVED]
+        if not rs:
+            return REMOVED
         return rs[0] if len(rs) == 1 else z3.Concat(*rs)
+    if isinstance(node, Repetition) and msg_re(node.node) is REMOVED:
+        return REMOVED
     # * and + are capped by the tool's documented repetition cap (nodes.MAX_REPETITIONS), as in generation
     if isinstance(node, Star):
         return z3.Loop(msg_re(node.node), 0, nodes_mod.MAX_REPETITIONS)
@@ -82,7 +124,7 @@ def msg_re(node):
     raise TypeError(node)
 
 
-RE = msg_re(G.rules[NonTerminal("<start>")])
+RE = msg_re(G_REF.rules[NonTerminal("<start>")])
 ALL_MSGS = sorted(LETTERS.items(), key=lambda kv: kv[1])
 _cache = {}
 
